@@ -591,12 +591,20 @@ def _d5(chk, fb):
                 idx = render(kids(x)[0])
         sub = local_inits(f)
 
+        # (the size may be held in a const local: 'const size_t count = size(); if (index >= count) throw')
+        sub_other = {k_: v_ for k_, v_ in sub.items() if not any(dn_["k"] == "DeclStmt" and any(d_["id"] == k_ and d_["name"] == idx for d_ in dn_["decls"]) for dn_ in f.all_nodes())}
+
         def est(facts, idx=idx):
             for text, truth, node in facts:
-                if idx and text in ("(%s >= this.size())" % idx, "(%s >= size())" % idx) and truth is False:
-                    return True
-                if idx and text in ("(%s < this.size())" % idx, "(%s < size())" % idx) and truth is True:
-                    return True
+                texts = {text}
+                if node is not None:
+                    texts.add(render(node, sub_other))
+                for tx in texts:
+                    tx = tx.replace("this.", "")
+                    if idx and tx in ("(%s >= size())" % idx, "(size() <= %s)" % idx) and truth is False:
+                        return True
+                    if idx and tx in ("(%s < size())" % idx, "(size() > %s)" % idx) and truth is True:
+                        return True
             return False
         if e["callee"]["name"] == "deleteParameter":
             # the range test is made by the single-position overload
